@@ -131,7 +131,7 @@ def decision_paths(P, b, prims):
                 if on_true or on_false:
                     val = on_true
                     # normalise by operator: key boundary is for `<`-like (true below) when op in Lt/Le, else true above
-                    below = c.op in ("Lt", "Le")
+                    below = c.nop in ("Lt", "Le")     # operator with the constant on the right-hand side
                     truth = "below" if (val == below) else "at-or-above"
                 path.add((R.cmp_key_positional(c), truth))
             out.setdefault(nm, set()).add(frozenset(path))
